@@ -673,7 +673,6 @@ class ChunkGen:
         self.ro = ro
         self.opts = opts
         self.hazard = hazard
-        self.shadow = base_state.copy()
         self.ivars = {}         # name -> 'nn' | 'any'
         self.svars = []
         self.idicts = {}        # name -> list of keys
@@ -685,7 +684,6 @@ class ChunkGen:
         self.in_def = None
         self.features = set()
         self.uses_pc = False
-        self.depth_seen = 0
         self.nvar = 0
         self.cfg_custom = ro['cfg_mode'] == 'custom'
         self.pushed = []
@@ -737,8 +735,6 @@ class ChunkGen:
 
     def lit_text(self, plain=False, lo=1, hi=3):
         s = self.words(lo, hi, plain=plain or self.plain_mode > 0)
-        if self.hazard != 'esc' and self.loops:
-            pass
         return lit(s)
 
     def br(self):
@@ -975,7 +971,6 @@ class ChunkGen:
     def gen_pure(self, depth, inloop=False):
         """A side-effect-free text node (macro or literal)."""
         rng = self.rng
-        self.depth_seen = max(self.depth_seen, 0)
         if depth <= 0:
             return self.leaf()
         kinds = ['eval'] * 5 + ['n'] * 4 + ['if'] * 4 + ['map'] * 3 + ['for'] * 4 + ['foreach'] * 3 + ['peek'] * 3 + ['chr'] * 2 + \
@@ -1031,7 +1026,7 @@ class ChunkGen:
         n = N('eval', e=e, base=base, width=width)
         if s != 'nn':
             n.width = None
-        if rng.random() < 0.06 and self.contains_mac(e) and not self.loops and not self.params:
+        if rng.random() < 0.25 and self.contains_mac(e) and not self.loops and not self.params:
             n.hash = True
             self.features.add('hash')
         return n
@@ -1096,6 +1091,15 @@ class ChunkGen:
             ke = self.gen_num(kv) if rng.random() < 0.7 else N('bin', op='+', a=self.gen_num(kv - kv // 2), b=self.gen_num(kv // 2))
             pairs.append((ke, self.gen_pure(depth - 1) if rng.random() < 0.4 else lit(self.plain_word())))
         n = N('map', key=k, default=self.gen_pure(depth - 1) if rng.random() < 0.3 else lit(rng.choice(['?', 'none', '-', ''])), pairs=pairs)
+        if rng.random() < 0.12 and not self.loops and not self.params and self.in_def is None and not self.plain_mode:
+            # 'keys may also be expressed using skool macros, but then the entire parameter string must be enclosed by a #() macro'
+            n.hash = True
+            n.key = self.gen_num(rng.randint(0, 5))
+            n.default = lit(rng.choice(['?', 'none']))
+            n.pairs = [(N('mac', node=N('eval', e=N('bin', op='+', a=self.gen_num(kv), b=self.gen_num(0)), base=None, width=None)) if rng.random() < 0.5
+                        else N('mac', node=N('if', e=self.gen_num(1), t=lit(str(kv)), f=None)), lit(self.plain_word())) for kv in keys]
+            self.features.add('hash')
+            self.features.add('MAP-macro-keys')
         return n
 
     def expr_sign(self, e):
@@ -1764,8 +1768,6 @@ class ChunkGen:
             items.append(N('pokes', groups=[(self.gen_num(a), self.gen_num(rng.randint(0, 255)), self.gen_num(ln), None)]))
             items.append(self.stmt_pokes(depth, False))
             items.extend(self.reads(depth))
-            if rng.random() < 0.3 and self.ro['strings']:
-                pass
 
     def generate(self):
         rng = self.rng
@@ -1776,7 +1778,7 @@ class ChunkGen:
             plan = 'vars'
         self.plan = plan
         if plan in ('vars', 'mixed'):
-            kinds = ['let_int'] * 5 + ['let_str'] * 3 + ['let_dict'] * 2 + ['let_key'] + ['def'] * 4 + ['while'] * 2
+            kinds = ['let_int'] * 5 + ['let_str'] * 3 + ['let_dict'] * 2 + ['let_key'] * 2 + ['def'] * 4 + ['while'] * 2
             nst = rng.randint(1, 4)
             for i in range(nst):
                 k = rng.choice(kinds)
@@ -1857,7 +1859,7 @@ def make_chunk(rng, cid, region, ro, base_state, opts, hazard=None, tries=60):
             text = r.text(tree, new_rc()).text
             if re.search('[\ue000-\uf8ff]', text):
                 raise Reject('unresolved loop variable placeholder')
-            if '\n' in text or text != text.strip() and False:
+            if '\n' in text:
                 raise Reject('newline')
             if hazard and not getattr(g, 'hazard_hit', False):
                 raise Reject('hazard not exercised')
@@ -1870,6 +1872,8 @@ def make_chunk(rng, cid, region, ro, base_state, opts, hazard=None, tries=60):
                 raise Reject('not idempotent')
             if len(text) > 1500 or len(out1) > 3000:
                 raise Reject('too long')
+            if tree_depth(tree) > 4:
+                raise Reject('nested deeper than the quantifier of the property (4)')
             if g.uses_pc:
                 # the value must be defined at every address the text can be attached to
                 for pc in ro['code_addrs']:
@@ -1982,7 +1986,7 @@ def make_file(rng, nchunks, hazard=None, nentries=None, forced_opts=None):
                     gg.in_def = None
                     node = getattr(gg, 'stmt_' + k)(2)
                     gg.add_stmt(nodes, node)
-                if gg.uses_pc or 'STR' in gg.features and False:
+                if gg.uses_pc:
                     raise Reject('pc in a global')
                 st = base_state.copy()
                 texts = []
